@@ -234,6 +234,20 @@ func genReqFor(t *rapid.T, name string, full bool) Req {
 		// nothing but unknown series: there is no input to run on
 		q.Inputs = []NS{{"notAnInput", pbt.Fs(cc.Inputs[0])}}
 	}
+	if !full && len(q.Inputs) >= 2 && rapid.IntRange(0, 9).Draw(t, "unequal") == 0 {
+		// one series of a different length (shorter, longer, empty)
+		k := rapid.IntRange(0, len(q.Inputs)-1).Draw(t, "unequalWhich")
+		n := len(q.Inputs[k].Values)
+		m := rapid.SampledFrom([]int{0, 1, n - 1, n + 1, n + 7}).Draw(t, "unequalLen")
+		if m < 0 {
+			m = 0
+		}
+		v := make([]pbt.F, m)
+		for i := range v {
+			v[i] = q.Inputs[k].Values[i%n]
+		}
+		q.Inputs[k] = NS{q.Inputs[k].Name, v}
+	}
 	// any order
 	if rapid.Bool().Draw(t, "shuffle") {
 		q.Params = rapid.Permutation(q.Params).Draw(t, "permP")
@@ -311,6 +325,30 @@ func direct(q Req) (desc sim.ModelDescription, out [][]float64, st []float64, mi
 	return
 }
 
+// knownLengths: the length of the series supplied for each of the model's inputs (first match by name), in the
+// model's input order; inputs without a series are left out.
+func knownLengths(model string, ins []NS) []int {
+	var l []int
+	for _, nm := range simref.New(model).Description().Inputs {
+		for _, g := range ins {
+			if g.Name == nm {
+				l = append(l, len(g.Values))
+				break
+			}
+		}
+	}
+	return l
+}
+
+func unequal(l []int) bool {
+	for _, n := range l {
+		if n != l[0] {
+			return true
+		}
+	}
+	return false
+}
+
 // compareResponse checks a decoded response of a structured request against the direct run.
 func compareResponse(q Req, resp response, r *pbt.Result) {
 	known := false
@@ -336,6 +374,18 @@ func compareResponse(q Req, resp response, r *pbt.Result) {
 		}
 		if !nonEmpty {
 			r.Failf("%s: no input series of the model was supplied and the log does not mention it: %q", q.Model, resp.Log)
+		}
+		return
+	}
+	if lens := knownLengths(q.Model, q.Inputs); unequal(lens) {
+		// series of the model's inputs with different lengths: a problem to be described, not a run
+		r.Label("unequal-input-lengths")
+		r.NonTrivial = true
+		if len(resp.RunResults.Outputs) > 0 && string(resp.RunResults.Outputs) != "null" {
+			r.Failf("%s: input series of lengths %v were supplied, yet the answer carries outputs %s (log %q)", q.Model, lens, trunc(string(resp.RunResults.Outputs), 200), resp.Log)
+		}
+		if len(strings.TrimSpace(strings.Join(resp.Log, ""))) == 0 {
+			r.Failf("%s: input series of lengths %v were supplied and the log is empty", q.Model, lens)
 		}
 		return
 	}
@@ -645,6 +695,31 @@ func checkChild(q Req) (r pbt.Result) {
 		}
 	} else {
 		r.NonTrivial = true
+		// a runnable name with series of unequal length for the model's inputs is a problem to be described
+		var raw struct {
+			Name   string
+			Inputs []struct {
+				Name   string
+				Values []json.RawMessage
+			}
+		}
+		if json.NewDecoder(bytes.NewReader(body)).Decode(&raw) == nil {
+			var ins []NS
+			for _, g := range raw.Inputs {
+				ins = append(ins, NS{g.Name, make([]pbt.F, len(g.Values))})
+			}
+			if lens := knownLengths(raw.Name, ins); unequal(lens) {
+				r.Label("unequal-input-lengths")
+				if len(resp.RunResults.Outputs) > 0 && string(resp.RunResults.Outputs) != "null" {
+					r.Failf("request %q has input series of lengths %v, yet the answer carries outputs: %s", trunc(string(body), 200), lens, trunc(string(so), 300))
+					return
+				}
+				if len(resp.Log) == 0 {
+					r.Failf("request %q has input series of lengths %v and the answer has an empty log", trunc(string(body), 200), lens)
+					return
+				}
+			}
+		}
 	}
 	return
 }
